@@ -36,6 +36,10 @@ type Case struct {
 	Bytes     []byte         `json:"bytes,omitempty"`
 	Printable string         `json:"printable,omitempty"`
 	Stress    string         `json:"stress,omitempty"`
+	// population: N0 / N1 valid Spec files in a lower / higher directory that all define the same
+	// device (and one of their own), optionally with an unparsable file between them
+	N0, N1 int  `json:"files_defining_the_device_low_high,omitempty"`
+	Bad    bool `json:"with_an_unparsable_file,omitempty"`
 }
 
 type worker struct {
@@ -169,6 +173,42 @@ func (w *worker) eval(c Case) hx.Result {
 			_ = w.cache.GetVendorSpecs(n)
 			_ = cdi.GenerateSpecName(n, n)
 			_ = cdi.GenerateTransientSpecName(n, n, n)
+			outcome = "evaluated"
+		case "population":
+			// the cache's cross-file bookkeeping (precedence, conflicts) over several valid files
+			root := filepath.Join(w.dir, "population")
+			_ = os.RemoveAll(root)
+			dirs := []string{filepath.Join(root, "d0"), filepath.Join(root, "d1")}
+			for di, n := range []int{c.N0, c.N1} {
+				_ = os.MkdirAll(dirs[di], 0o755)
+				for k := 0; k < n; k++ {
+					ext := []string{".json", ".yaml"}[k%2]
+					doc := fmt.Sprintf(`{"cdiVersion":"0.5.0","kind":"vendor.com/class","containerEdits":{"env":["SPEC=%d%d"]},"devices":[{"name":"dev","containerEdits":{"env":["FROM=d%d-%d"]}},{"name":"own%d%d","containerEdits":{"env":["OWN=1"]}}]}`, di, k, di, k, di, k)
+					_ = os.WriteFile(filepath.Join(dirs[di], fmt.Sprintf("f%d%s", k, ext)), []byte(doc), 0o644)
+				}
+				if c.Bad {
+					_ = os.WriteFile(filepath.Join(dirs[di], "f0a.json"), []byte(`{"cdiVersion": [`), 0o644)
+				}
+			}
+			for _, auto := range []bool{false, true} {
+				pc, _ := cdi.NewCache(cdi.WithSpecDirs(dirs...), cdi.WithAutoRefresh(auto))
+				_ = pc.Refresh()
+				for _, d := range pc.ListDevices() {
+					_ = pc.GetDevice(d)
+				}
+				_ = pc.GetDevice("vendor.com/class=dev")
+				_, _ = pc.InjectDevices(&oci.Spec{}, "vendor.com/class=dev", "vendor.com/class=own00")
+				_ = pc.GetErrors()
+				for _, v := range pc.ListVendors() {
+					for _, sp := range pc.GetVendorSpecs(v) {
+						_ = pc.GetSpecErrors(sp)
+					}
+				}
+				_ = pc.ListClasses()
+				_ = pc.Refresh()
+				_ = pc.Configure(cdi.WithAutoRefresh(false))
+			}
+			_ = os.RemoveAll(root)
 			outcome = "evaluated"
 		case "bytes", "stress":
 			files := len(c.Bytes) <= 3 || c.Kind == "stress"
@@ -496,6 +536,13 @@ func main() {
 		}
 	}
 	st := stressDocs()
+	for n0 := 0; n0 <= 5; n0++ {
+		for n1 := 0; n1 <= 4; n1++ {
+			for _, bad := range []bool{false, true} {
+				st = append(st, Case{Kind: "population", Stress: fmt.Sprintf("same-device-in-%d-low-and-%d-high-files", n0, n1), N0: n0, N1: n1, Bad: bad})
+			}
+		}
+	}
 	for i := range st {
 		jobs = append(jobs, job{kind: "stress", bi: i})
 	}
@@ -508,7 +555,7 @@ func main() {
 		return fmt.Sprintf("(a) %d base documents x every member position (present members, absent optional members, first/last list elements, one unknown member per object) x an 18-value type-confusion domain "+
 			"(absent, null, strings, 0, -1, 2^32, 2^63, below int64, 1.5, true, [], [null], [\"\"], [[]], [{}], {}, {x:null}, deep nesting) and every single value-level defect of C05's generator (malformed names, keys, paths, versions, sizes): %d documents (+%d confusion pairs), JSON and YAML, through ParseSpec, ReadSpec, cache Refresh and every query, "+
 			"MinimumRequiredVersion/ValidateVersion, schema ValidateData/ValidateReader/ReadAndValidate/ValidateFile/Validate, and - when the document loads - InjectDevices/ApplyEdits of every device into %d OCI spec shapes; "+
-			"(b) every byte string of length 0..%d over %d structural bytes (%d strings); (b2) every string of up to %d tokens over %q (%d strings) as device name, annotation key/value, plugin and device id through the parser, the annotation helpers, GetDevice and InjectDevices; (c) %d stress documents; (d) documents of (a) loaded by the watcher goroutine of an auto-refresh cache in worker subprocesses. "+
+			"(b) every byte string of length 0..%d over %d structural bytes (%d strings); (b2) every string of up to %d tokens over %q (%d strings) as device name, annotation key/value, plugin and device id through the parser, the annotation helpers, GetDevice and InjectDevices; (c) %d stress documents and directory populations (0..5 + 0..4 valid files in two directories all defining one device, with and without an unparsable file in between); (d) documents of (a) loaded by the watcher goroutine of an auto-refresh cache in worker subprocesses. "+
 			"Oracle: no panic, no process death, a file that does not load has a cache error entry. Distinct by construction; every case is non-trivial (it is executed against all entry points)",
 			len(bases), nDocs.Load(), nPairs.Load(), len(ociShapes), L, len(structural), nBytes.Load(), NL, nameTokens, nNames.Load(), len(st))
 	}
